@@ -11,11 +11,11 @@ Proof. reflexivity. Qed.
 
 (** The edges of the window are the first and last entry of the MPD's timeline. *)
 Theorem C05_edges_are_listed : forall r loopMS, wf r loopMS -> forall c now tsbdMS atoMS,
-  startS c * 1000 <= now -> 0 <= tsbdMS -> 0 <= atoMS -> atoMS * ts r <= 1000 * en (segAt r 0) ->
+  startS c * 1000 <= now -> 0 <= tsbdMS -> 0 <= atoMS ->
   let se := generateTimelineEntries r (calcWrapTimes loopMS c now tsbdMS) atoMS in
   let last := window_last r c atoMS now in
   let first := window_first r c atoMS now tsbdMS in
-  (last < 0 -> se_startNr se = -1 /\ se_entries se = []) /\
+  (last < 0 -> se_startNr se = -1 /\ se_entries se = [] /\ se_lsi_nr se = -1) /\
   (0 <= last ->
      first <= last /\ se_startNr se = first /\
      expand (se_entries se) = window_td r first last /\
@@ -56,6 +56,28 @@ Theorem C05_edge_is_availability : forall r loopMS, wf r loopMS -> forall c atoM
 Proof. exact edge_checkTime. Qed.
 Print Assumptions C05_edge_is_availability.
 
+(** publishTime ([mpdPublishMS], theories/Publish.v: calcPublishTime on the last-segment information
+    of the timeline) on the millisecond grid ([E last * 1000 = Ems * timescale]): it is the instant
+    start + Ems - ato at which the newest listed segment became available (clipped below at the start
+    of the stream; the start itself while the timeline is empty), and it is never later than [now]. *)
+Theorem C05_publish_is_edge_availability : forall r loopMS c now tsbdMS atoMS Ems,
+  wf r loopMS -> startS c * 1000 <= now -> 0 <= tsbdMS -> 0 <= atoMS ->
+  let last := window_last r c atoMS now in
+  (0 <= last -> E r last * 1000 = Ems * ts r) ->
+  mpdPublishMS r loopMS c now tsbdMS atoMS
+  = (if last <? 0 then startS c * 1000 else Z.max (startS c * 1000) (startS c * 1000 + Ems - atoMS)) /\
+  mpdPublishMS r loopMS c now tsbdMS atoMS <= now.
+Proof. exact publish_is_edge_availability. Qed.
+Print Assumptions C05_publish_is_edge_availability.
+
+(** With every segment end on the millisecond grid, publishTime never decreases. *)
+Theorem C05_publish_monotone : forall r loopMS c tsbdMS atoMS now1 now2,
+  wf r loopMS -> startS c * 1000 <= now1 <= now2 -> 0 <= tsbdMS -> 0 <= atoMS ->
+  (forall n, 0 <= n -> (ts r | E r n * 1000)) ->
+  mpdPublishMS r loopMS c now1 tsbdMS atoMS <= mpdPublishMS r loopMS c now2 tsbdMS atoMS.
+Proof. exact publish_monotone. Qed.
+Print Assumptions C05_publish_monotone.
+
 (** Non-vacuity: 4 x 2 s loop, start 30 s, tsbd 10 s, availabilityTimeOffset 0.5 s.  Segment 34 ends
     at 30 + 70 = 100 s and becomes available at 99.5 s: the last edge steps from 33 to 34 there,
     the first edge from 28 to 29 (window start 89.5 s, segment 29 available at 89.5 s);
@@ -70,8 +92,10 @@ Example C05_example :
   map (fun now => (window_first ex_rep ex_cfg 500 now 10000, window_last ex_rep ex_cfg 500 now))
       [30000; 31499; 31500; 99499; 99500; 100000; 101500]
   = [(0, -1); (0, -1); (0, 0); (28, 33); (29, 34); (29, 34); (30, 35)] /\
-  map (fun now => phase (checkTime (E ex_rep 34 + 30 * 90000) 90000 now 10 (Some 500))) [99499; 99500] = [0; 1].
+  map (fun now => phase (checkTime (E ex_rep 34 + 30 * 90000) 90000 now 10 (Some 500))) [99499; 99500] = [0; 1] /\
+  map (fun now => mpdPublishMS ex_rep 8000 ex_cfg now 10000 500) [30000; 31499; 31500; 99499; 99500; 100000]
+  = [30000; 30000; 31500; 97500; 99500; 99500].
 Proof.
-  split; [|vm_compute; split; reflexivity].
+  split; [|vm_compute; repeat split; reflexivity].
   constructor; cbn; try lia; try discriminate; repeat constructor; cbn; lia.
 Qed.
